@@ -435,3 +435,41 @@ func (m *Model) MaskableRows() bool {
 	}
 	return false
 }
+
+// NaryUniverse: one user, three documents (operand sets of sizes 0..3).
+func NaryUniverse() Universe {
+	return Universe{"user": {"user:a"}, "group": {"group:1"}, "doc": {"doc:1", "doc:2", "doc:3"}}
+}
+
+// NaryFamily: r0 is ONE n-ary union / intersection node (three or four operands, every operand order) over the
+// directly assigned relations r1, aux, aux2 (and the relation's own direct assignment), alone and under / over a
+// `but not`. Engines that treat the operands of an n-ary node asymmetrically (smallest operand first, first
+// operand as the output set, ...) are only exercised by operand sets of different sizes over several objects.
+func NaryFamily() []*Model {
+	user := []Restr{{Type: "user"}}
+	leaf := func(n string) *Expr { return Comp(n) }
+	var out []*Model
+	add := func(r0 *Expr, restr []Restr) {
+		out = append(out, &Model{Types: map[string]map[string]*RelDef{
+			"user":  {},
+			"group": {"member": {This(), user}},
+			"doc":   {"r1": {This(), user}, "aux": {This(), user}, "aux2": {This(), user}, "r0": {r0, restr}},
+		}})
+	}
+	names := []string{"r1", "aux", "aux2"}
+	perms := [][]int{{0, 1, 2}, {0, 2, 1}, {1, 0, 2}, {1, 2, 0}, {2, 0, 1}, {2, 1, 0}}
+	for _, k := range []Kind{KInter, KUnion} {
+		for _, p := range perms {
+			add(NaryOf(k, leaf(names[p[0]]), leaf(names[p[1]]), leaf(names[p[2]])), nil)
+			if k == KUnion {
+				break // the operands of a union are symmetric in every engine's result; one order
+			}
+		}
+		// four operands with the direct assignment first / last
+		add(NaryOf(k, This(), leaf("r1"), leaf("aux"), leaf("aux2")), user)
+		add(NaryOf(k, leaf("aux2"), leaf("aux"), leaf("r1"), This()), user)
+	}
+	add(Bin(KDiff, NaryOf(KInter, leaf("r1"), leaf("aux"), This()), leaf("aux2")), user)
+	add(NaryOf(KInter, leaf("r1"), Bin(KDiff, leaf("aux"), leaf("aux2")), This()), user)
+	return out
+}
